@@ -16,9 +16,16 @@ import sys
 import time
 
 ROOT = os.path.dirname(os.path.dirname(os.path.abspath(__file__)))
-REPO = os.environ.get("VERIF_REPO", "/repo")
+# VERIF_REPO lets a check run against a scratch worktree of obgm/libcoap (mutation testing)
+# without touching /repo: objects, the Coq tree (copied, so regenerated Gen/*.v files do not
+# pollute the real one) and the evidence then live under .build/alt-<hash>/.
+REPO = os.environ.get("VERIF_REPO", "/repo").rstrip("/") or "/repo"
+ALT = REPO != "/repo"
 BUILD = os.path.join(ROOT, ".build")
-COQ = os.path.join(ROOT, "coq")
+if ALT:
+    BUILD = os.path.join(BUILD, "alt-" + hashlib.md5(REPO.encode()).hexdigest()[:8])
+COQ = os.path.join(BUILD, "coq") if ALT else os.path.join(ROOT, "coq")
+EVID = os.path.join(BUILD, "evidence") if ALT else os.path.join(ROOT, "evidence")
 GUARD = "LIBCOAP_VERIF_HOOKS"
 NPROC = str(os.cpu_count() or 4)
 
@@ -160,12 +167,17 @@ def coq_forbidden_tokens():
     for p in glob.glob(os.path.join(COQ, "**", "*.v"), recursive=True):
         for i, line in enumerate(open(p, encoding="utf-8", errors="replace"), 1):
             if FORBIDDEN.search(line):
-                hits.append("%s:%d: %s" % (os.path.relpath(p, ROOT), i, line.strip()))
+                hits.append("%s:%d: %s" % (os.path.relpath(p, COQ), i, line.strip()))
     return hits
 
 
 def coq_makefile():
     with Lock("coqmk"):
+        import coqgen
+        if ALT:
+            os.makedirs(COQ, exist_ok=True)
+            sh(["rsync", "-a", "--delete", "--exclude", "Gen/*.vo", os.path.join(ROOT, "coq") + "/", COQ + "/"])
+        coqgen.main(COQ)
         mk = os.path.join(COQ, "Makefile")
         cp = os.path.join(COQ, "_CoqProject")
         if (not os.path.exists(mk)) or os.path.getmtime(mk) < os.path.getmtime(cp):
@@ -228,6 +240,7 @@ def coq_properties(pid):
 
 def build_model():
     """Extract the Gallina models (coq/Extract.v -> model.ml) and build ocaml/driver.ml."""
+    coq_makefile()
     ok, out, _ = coq_make(["Extract.vo"])
     if not ok:
         raise BuildError("extraction failed:\n" + out[-3000:])
@@ -297,10 +310,14 @@ def run_lines_robust(exe, lines, timeout=900, env=None, max_restarts=50):
 # ------------------------------------------------------------------ verdict + evidence
 
 def known_findings():
-    p = os.path.join(ROOT, "known_findings.json")
-    if not os.path.exists(p):
-        return []
-    return json.load(open(p)).get("findings", [])
+    """known_findings.json (+ known_findings.d/*.json fragments, same format)"""
+    out = []
+    ps = [os.path.join(ROOT, "known_findings.json")] + \
+        sorted(glob.glob(os.path.join(ROOT, "known_findings.d", "*.json")))
+    for p in ps:
+        if os.path.exists(p):
+            out.extend(json.load(open(p)).get("findings", []))
+    return out
 
 
 class Run:
@@ -319,7 +336,7 @@ class Run:
         self.assumptions = []
         self._distinct = set()
         self.kf = [f for f in known_findings() if f.get("property") == pid]
-        os.makedirs(os.path.join(ROOT, "evidence"), exist_ok=True)
+        os.makedirs(EVID, exist_ok=True)
         os.makedirs(os.path.join(BUILD, "replay"), exist_ok=True)
 
     # -- counting
@@ -361,6 +378,7 @@ class Run:
     # -- proof step
     def prove(self):
         """Compile Properties_<pid>.v; every theorem in it is one obligation."""
+        coq_makefile()
         bad = coq_forbidden_tokens()
         res = coq_properties(self.pid)
         self.cov["checker_cmd"] = ("make -C coq Properties_%s.vo (coqc 8.16.1, full .vo) + "
@@ -422,7 +440,7 @@ class Run:
         if not self.cov["samples"]:
             self.cov["samples"] = ["(no case generated)"]
         ev["coverage"]["known_findings_hit"] = sorted(self.known_hits)
-        with open(os.path.join(ROOT, "evidence", self.pid + ".json"), "w") as f:
+        with open(os.path.join(EVID, self.pid + ".json"), "w") as f:
             json.dump(ev, f, indent=1, sort_keys=True)
             f.write("\n")
         sys.stdout.flush()
